@@ -323,6 +323,7 @@ C10_StoredCookieAccepted(B, k) ==
   (k > 1 /\ Intent(h) = "Transfer" /\ \E i \in Idx(h, IsAuthCookieRx) : h[i].f.v = "jar") =>
      /\ \A i \in EncReqs(B, k) : h[i].p.auth = ~JarAcceptable(B, k)
      /\ JarAcceptable(B, k) =>
+           /\ EncReqs(B, k) # {}       \* presenting it is answered (whatever its size: it is the cookie this server issued)
            /\ AuthCalls(B, k) = {}
            /\ \A i \in Idx(h, LAMBDA x : IsTx(x, "LoginSuccess")) : h[i].p.who = CookieWho(B, k, "jar")
 
